@@ -634,11 +634,6 @@ fn main() {
     env_logger::Builder::from_env("STYLUA_LOG")
         .filter(None, level_filter)
         .format(move |buf, record| {
-            // Side effect: set exit code
-            if let Level::Error = record.level() {
-                EXIT_CODE.store(2, Ordering::SeqCst);
-            }
-
             let tag = match record.level() {
                 Level::Error => style("error").red(),
                 Level::Warn => style("warn").yellow(),
